@@ -106,6 +106,11 @@ type FuncCtx struct {
 	goDepth        int
 	inQuant        int
 	modDepth       int
+	permDecls      []string
+	hints          []types.Type
+	hintDone       bool
+	dynKnown       map[string]bool
+	implIfaces     map[string]types.Type
 	outstanding    []famInst
 	famOverride    []famInst
 }
@@ -288,13 +293,26 @@ func instantiate(h string, grounds []string, goalIdx []string, out *[]string) {
 				sks = append(sks, g)
 			}
 		}
+		// loop counters and other plain symbols that occur as summands of goal indices
+		for _, g := range grounds {
+			if len(sks) >= 6 {
+				break
+			}
+			if strings.ContainsAny(g, "() ") || strings.HasPrefix(g, "sk") || strings.HasSuffix(g, "$off") || strings.HasSuffix(g, "$rid") || strings.HasSuffix(g, ".off") || strings.HasSuffix(g, ".rid") {
+				continue
+			}
+			if strings.Contains(g, "@L") {
+				sks = append(sks, g)
+			}
+		}
 		if len(sks) == 0 || len(sks) > 6 {
 			return
 		}
 		var rec func(t string, depth int)
 		count := 0
+		usedSk := map[string]bool{}
 		rec = func(t string, depth int) {
-			if count > 400 {
+			if count > 200 {
 				return
 			}
 			m := parseSx(t)
@@ -314,11 +332,16 @@ func instantiate(h string, grounds []string, goalIdx []string, out *[]string) {
 			v := m.kids[1].kids[0].kids[0].atom
 			b := m.kids[2].String()
 			for _, s := range sks {
+				if usedSk[s] && len(sks) >= 3 {
+					continue // injective assignments only (distinct bound variables, distinct skolems)
+				}
+				usedSk[s] = true
 				inst := replaceSym(b, v, s)
 				if g2 != nil {
 					inst = "(=> " + g2.String() + " " + inst + ")"
 				}
 				rec(inst, depth+1)
+				usedSk[s] = false
 			}
 		}
 		rec(n.String(), 0)
@@ -562,11 +585,24 @@ func (fx *FuncCtx) buildQuery(hyps []Term, goal Term) string {
 	}
 	var b strings.Builder
 	b.WriteString(preamble(fx.ieee))
+	perm := map[string]bool{}
+	for _, d := range fx.permDecls {
+		if perm[d] {
+			continue
+		}
+		perm[d] = true
+		b.WriteString(d)
+		b.WriteByte('\n')
+	}
 	for _, d := range fx.decls {
+		if perm[d] {
+			continue
+		}
 		b.WriteString(d)
 		b.WriteByte('\n')
 	}
 	b.WriteString(fx.distinctStrings())
+	b.WriteString(fx.implementsFacts())
 	for _, f := range fx.globalFacts {
 		b.WriteString("(assert ")
 		b.WriteString(f.S)
@@ -789,7 +825,7 @@ func (fx *FuncCtx) zeroVal(t types.Type) Val {
 			fx.unsupportedf("array of non-scalar %s", t)
 		}
 		z := fx.zeroVal(u.Elem()).(Term)
-		return ArrayV{T: u, Arr: Term{fmt.Sprintf("((as const %s) %s)", ArraySort(SInt, es), z.S), ArraySort(SInt, es)}}
+		return ArrayV{T: u, Arr: fx.constArray(es, z)}
 	case *types.Pointer:
 		return PtrV{Ref: IntLit(0), Elem: u.Elem()}
 	case *types.Map:
@@ -838,4 +874,44 @@ var skPrefixRe = regexp.MustCompile(`ske?![0-9!]*q_`)
 // Skolem constants (sk!q_*, ske!N!q_*) do not count.
 func hasBoundVar(g string) bool {
 	return strings.Contains(skPrefixRe.ReplaceAllString(g, "SK_"), "q_")
+}
+
+// implementsFacts: for every interface used in a type assertion and every
+// concrete type that has been given a type id, whether the type implements
+// the interface (decided by go/types).
+func (fx *FuncCtx) implementsFacts() string {
+	if len(fx.implIfaces) == 0 {
+		return ""
+	}
+	var b strings.Builder
+	names := make([]string, 0, len(fx.implIfaces))
+	for n := range fx.implIfaces {
+		names = append(names, n)
+	}
+	sort.Strings(names)
+	fx.eng.mu.Lock()
+	type kv struct {
+		t  types.Type
+		id int64
+	}
+	var ts []kv
+	for _, t := range fx.eng.typeObjs {
+		ts = append(ts, kv{t, fx.eng.typeIDs[types.TypeString(t, nil)]})
+	}
+	fx.eng.mu.Unlock()
+	sort.Slice(ts, func(i, j int) bool { return ts[i].id < ts[j].id })
+	for _, n := range names {
+		iface, ok := fx.implIfaces[n].Underlying().(*types.Interface)
+		if !ok {
+			continue
+		}
+		for _, t := range ts {
+			v := "false"
+			if types.Implements(t.t, iface) {
+				v = "true"
+			}
+			fmt.Fprintf(&b, "(assert (= (%s %d) %s))\n", n, t.id, v)
+		}
+	}
+	return b.String()
 }
